@@ -228,3 +228,49 @@ def name_kw(name):
 def same_content(oa, ob, name=True, level=True, props=False):
     keys = ['kind', 'bits', 'idx', 'cnt'] + (['name'] if name else []) + (['level'] if level else []) + (['props'] if props else [])
     return all(oa.get(k) == ob.get(k) for k in keys)
+
+
+# --------------------------------------------------------------------------- behaviour outside a property's domain
+def outside_domain(ctx, key, what, payload):
+    """A behaviour that contradicts the property's wording only for inputs outside its stated domain (e.g. count
+    fingerprints holding zero / negative counts).  It is reproduced and counted; it becomes a KNOWN-FINDING line when
+    known_findings.json lists `key` for this property, otherwise a note in the evidence."""
+    for f in ctx.findings:
+        if f.get('status') == 'known' and f.get('key') == key:
+            ctx.fail(what, payload, finding_key=key)
+            return
+    seen = getattr(ctx, '_outside', None)
+    if seen is None:
+        seen = ctx._outside = {}
+    if key not in seen:
+        seen[key] = 0
+        ctx.notes.append({'outside_domain': key, 'what': what, 'example': payload})
+    seen[key] += 1
+    for n in ctx.notes:
+        if isinstance(n, dict) and n.get('outside_domain') == key:
+            n['times_reproduced'] = seen[key]
+
+
+def signed_spec(rng, kind=None, bits=None):
+    """A count/float fingerprint holding zero and/or negative counts, the way subtraction produces them."""
+    kind = kind or rng.choice(['KCount', 'KFloat'])
+    sa = rand_spec(rng, kind=kind, bits=bits or rng.choice([4, 8, 16, 1024, 2 ** 32]))
+    keys = sorted(sa['cnt'])
+    if not keys:
+        keys = [0]
+        sa['cnt'] = {0: sa['cnt'].get(0, 1) if sa['cnt'] else (1 if kind == 'KCount' else Fraction(3, 2))}
+    sb = {'kind': kind, 'bits': sa['bits'], 'level': sa['level'], 'cnt': {}}
+    for k in keys:
+        r = rng.random()
+        if r < 0.4:
+            sb['cnt'][k] = sa['cnt'][k]                     # -> 0
+        elif r < 0.7:
+            sb['cnt'][k] = sa['cnt'][k] + rng.choice([1, 2])   # -> negative
+    if not sb['cnt']:
+        sb['cnt'][keys[0]] = sa['cnt'][keys[0]]
+    return sa, sb
+
+
+def build_signed(rng, kind=None, bits=None):
+    sa, sb = signed_spec(rng, kind, bits)
+    return build(sa) - build(sb)
